@@ -27,6 +27,43 @@ type Case struct {
 	Link string
 	Want string // "" = only totality asserted; "err"; "user:<name>"; "join:<token>"
 	Why  string
+	// Pool: the links other goroutines resolve at the same time (concurrent phase)
+	Pool []Case `json:",omitempty"`
+}
+
+// concurrent resolves the pool from 8 goroutines at once, each in its own order: a caller gets the answer for its own
+// link, whatever the others ask.
+func concurrent(pool []Case, rounds int) (Case, error) {
+	type bad struct {
+		c   Case
+		err error
+	}
+	res := make(chan bad, 8)
+	for w := 0; w < 8; w++ {
+		go func(w int) {
+			for r := 0; r < rounds; r++ {
+				for i := range pool {
+					c := pool[(i*(2*w+1)+r)%len(pool)]
+					got, err := resolve(c.Link)
+					if err == nil && c.Want != "" && got != c.Want {
+						err = fmt.Errorf("Resolve(%q) = %s while 7 other goroutines resolve other links, want %s", c.Link, got, c.Want)
+					}
+					if err != nil {
+						res <- bad{c, err}
+						return
+					}
+				}
+			}
+			res <- bad{}
+		}(w)
+	}
+	var first bad
+	for w := 0; w < 8; w++ {
+		if b := <-res; b.err != nil && first.err == nil {
+			first = b
+		}
+	}
+	return first.c, first.err
 }
 
 func resolve(link string) (got string, err error) {
@@ -226,13 +263,21 @@ func TestC20(t *testing.T) {
 		}
 		run.Case(true, 1)
 		run.Case(true, 2)
-		run.Sample(c)
+		run.Sample(map[string]any{"link": c.Link, "want": c.Want, "pool": len(c.Pool)})
+		if len(c.Pool) > 0 {
+			if _, err := concurrent(c.Pool, 200); err != nil {
+				run.Violation(c, err.Error())
+				t.Fatalf("replay fails: %v", err)
+			}
+			return
+		}
 		if err := oracle(c); err != nil {
 			run.Violation(c, err.Error())
 			t.Fatalf("replay fails: %v", err)
 		}
 		return
 	}
+	var pool []Case
 	t.Run("enumerated", func(t *testing.T) {
 		if run.Shard != 0 {
 			return
@@ -291,7 +336,22 @@ func TestC20(t *testing.T) {
 				p := run.Violation(c, err.Error())
 				t.Fatalf("violation (replay %s): %v", p, err)
 			}
+			if c.Want != "" && len(pool) < 400 {
+				pool = append(pool, c)
+			}
 		})
+	})
+	if t.Failed() || len(pool) < 8 {
+		return
+	}
+	t.Run("concurrent", func(t *testing.T) {
+		rounds := run.Pick(20, 400)
+		run.Class("concurrent:resolutions", int64(8*rounds*len(pool)))
+		if c, err := concurrent(pool, rounds); err != nil {
+			c.Pool = pool
+			p := run.ViolationNamed("concurrent", c, err.Error())
+			t.Fatalf("violation (replay %s): %v", p, err)
+		}
 	})
 }
 
